@@ -302,7 +302,21 @@ func c20CRSetup(k connCfg, variant string) func(c *fw.Ctx, name string) explore.
 					if variant == "transport-close-fails" || variant == "transport-close-lingers" {
 						return
 					}
+					if variant == "unfinished-message" {
+						// the unexpected message is only begun: a non-final fragment, then silence
+						p.SetWindow(0)
+						p.Send(peerData(k, frame.OpBinary, false, fill(0xEE, 3)))
+						return
+					}
 					p.Send(peerData(k, frame.OpBinary, true, fill(0xEE, 3)))
+					if variant == "ping-then-header" {
+						// the handshake's Close frame gets out; the peer sends a complete Ping and the
+						// first three bytes of the header of a 300-byte frame, then nothing
+						p.SetWindow(0)
+						p.WaitOut("close-frame", func(out []byte) bool { _, ok := firstClose(out); return ok })
+						fr := peerData(k, frame.OpBinary, true, fill(0xEF, 300))
+						p.Send(append(frame.Ctl(frame.OpPing, !k.Client, []byte("x")).Encode(nil), fr[:3]...))
+					}
 					if variant == "slow-handshake" {
 						vtime.Sleep(3 * time.Second)
 						p.SetWindow(0)
@@ -332,7 +346,7 @@ func c20CRSetup(k connCfg, variant string) func(c *fw.Ctx, name string) explore.
 					if variant == "transport-close-lingers" {
 						vtime.Sleep(time.Second) // the connection is being closed by the library by now
 					}
-					if variant == "slow-handshake" || variant == "stall-in-discard" {
+					if variant == "slow-handshake" || variant == "stall-in-discard" || variant == "unfinished-message" || variant == "ping-then-header" {
 						// let the CloseRead goroutine start its close handshake first
 						p.WaitOut("close-begun", func(out []byte) bool { return len(out) > 0 })
 						endErr = conn.Close(websocket.StatusNormalClosure, "")
@@ -435,7 +449,7 @@ func c20Scenarios(tier string) []scenario {
 		}
 	}
 	for _, k := range []connCfg{{Client: false}, {Client: true}} {
-		for _, v := range []string{"two-closeread", "slow-handshake", "stall-in-discard", "transport-close-fails", "transport-close-lingers"} {
+		for _, v := range []string{"two-closeread", "slow-handshake", "stall-in-discard", "transport-close-fails", "transport-close-lingers", "unfinished-message", "ping-then-header"} {
 			pv := 2
 			if tier == "thorough" {
 				pv = 3
